@@ -96,8 +96,12 @@ def ambiguous_tie(ref, margin=1e-7):
     return False
 
 
+ROOT_RANK = {"finish": 0, "sig-finish": 1, "sleep": 2, "end": 3}
+
+
 def compare(ref, obs):
-    """Returns None when obs agrees with ref, else a dict describing the earliest disagreement."""
+    """Compares every date of obs with ref. 'first' is the earliest disagreement (a completion before the events that merely follow it
+    at the same date), 'worst' the largest |difference| / tolerance, 'missing' / 'extra' the events logged by only one of the runs."""
     rk, ok = set(ref["ev"]), set(obs["ev"])
     worst = 0.0
     first = None
@@ -108,10 +112,15 @@ def compare(ref, obs):
         t = tol(a, nsteps)
         if d / t > worst:
             worst = d / t
-        if d > t and (first is None or (a, str(key)) < (first["ref"], str(first["key"]))):
-            first = {"key": key, "ref": a, "obs": b, "tol": t}
-    res = {"worst": worst, "first": first, "missing": sorted(map(str, rk - ok))[:6], "extra": sorted(map(str, ok - rk))[:6]}
-    return res
+        if d > t:
+            order = (min(a, b), ROOT_RANK.get(key[0], 4), str(key))
+            if first is None or order < first["order"]:
+                first = {"key": key, "ref": a, "obs": b, "tol": t, "order": order}
+    return {"worst": worst, "first": first, "missing": sorted(map(str, rk - ok))[:6], "extra": sorted(map(str, ok - rk))[:6]}
+
+
+def agree(res):
+    return res["first"] is None and not res["missing"] and not res["extra"]
 
 
 # ------------------------------------------------------------------------------------------------ exposure to open known findings
@@ -165,7 +174,7 @@ def profile_dates(pr, horizon):
 
 def exposure(w, cfg, ref):
     """Names of the open known findings this (workload, configuration) is exposed to (conservative over-approximation):
-    ti-suspend / ti-pstate: static features under cpu/optim:TI;
+    ti-suspend / ti-prio / ti-pstate: the workload suspends something / changes a priority / a pstate while running under cpu/optim:TI;
     link-change-in-latency: a bandwidth / latency profile event of a link falls in the latency phase of a comm crossing it;
     comm-suspend-in-latency: a comm (or an actor owning it) is suspended during the latency phase of the comm.
     The latency phase of a comm is over-approximated by [start, start + 13.01 * sum of the largest latency of every link of its route]."""
@@ -177,6 +186,8 @@ def exposure(w, cfg, ref):
             tags.add("ti-suspend")
         if "pstate" in feats:
             tags.add("ti-pstate")
+        if "prio" in feats:
+            tags.add("ti-prio")
     links = {l["name"]: l for l in w["platform"]["links"]}
     has_linkprof = any(l.get("bwprof") or l.get("latprof") for l in links.values())
 
@@ -192,7 +203,7 @@ def exposure(w, cfg, ref):
             lat = sum(maxlat(links[n]) for n in route)
             if lat > 0 and any(links[n].get("bwprof") or links[n].get("latprof") for n in route):
                 tags.add("link-change-in-latency")
-            if lat > 0 and "suspend" in feats:
+            if lat > 0 and "suspend" in feats and cfg[1] == "Lazy":
                 tags.add("comm-suspend-in-latency")
         return tags
     ev = ref["ev"]
@@ -222,6 +233,6 @@ def exposure(w, cfg, ref):
         spans = list(susp_act.get(i, []))
         for o in owners:
             spans += susp_actor.get(o, [])
-        if any(a <= hi and b >= lo for a, b in spans):
+        if cfg[1] == "Lazy" and any(a <= hi and b >= lo for a, b in spans):      # only the lazy update differs from the reference there
             tags.add("comm-suspend-in-latency")
     return tags
